@@ -211,9 +211,11 @@ fn gen_valid(rng: &mut Rng, big_arrays: bool) -> GenLib {
     let mut own = BTreeMap::new();
     // structure names: plain indices, or families that real libraries have - names differing only in letter case, and long names that share
     // their first 32 characters (parametric device names)
-    let family = rng.below(4);
+    let family = rng.below(5);
+    let one_char = crate::rt::prng::NameFamily::random(rng);
     let names: Vec<String> = (0..nstructs)
         .map(|i| match family {
+            4 => one_char.name(i),
             0 => ["via", "VIA", "Via", "vIa", "viA", "VIa"][i].to_string(),
             1 => format!("sky130_fd_pr__rf_nfet_01v8_lvt_aM02W1p65L0p{}", 15 + i),
             _ => format!("s{}", i),
